@@ -1,3 +1,4 @@
+import AndaVerif.Gen.Bm25Order
 /-
 Model of the in-memory part of `anda_db_tfs::BM25Index` (rs/anda_db_tfs/src/bm25.rs) as far as
 property C11 needs it: which documents a query returns, in which order, and the counters every
@@ -30,6 +31,8 @@ hash map), timestamps and the insert/delete/search counters.
 -/
 namespace AndaVerif
 namespace Bm25
+
+open Gen.Bm25Order (Arm TopKStep)
 
 /-! ### association lists and list-sets -/
 
@@ -131,11 +134,18 @@ def remove (s : Index) (id : Nat) (tf : List (Nat × Nat)) : Index × Bool :=
 
 /-! ### purge_ids -/
 
-def purgePosting (ids : List Nat) (p : Nat × Entries) : Option (Nat × Entries) :=
-  let es' := p.2.filter (fun e => !ids.contains e.1)
+/-- `retain` on one posting, as `purge_ids` and `load_buckets` use it: untouched when nothing was
+removed, dropped when the removal emptied it, else the remaining entries. -/
+def keepPruned (p : Nat × Entries) (es' : Entries) : Option (Nat × Entries) :=
   if es'.length = p.2.length then some p
   else if es'.isEmpty then none
   else some (p.1, es')
+
+def purgePosting (ids : List Nat) (p : Nat × Entries) : Option (Nat × Entries) :=
+  keepPruned p (p.2.filter (fun e => !ids.contains e.1))
+
+/-- phases 2–3 of `purge_ids`: every posting entry of `ids` goes; a posting emptied by it is dropped -/
+def sweep (ps : Postings) (ids : List Nat) : Postings := ps.filterMap (purgePosting ids)
 
 /-- `BM25Index::purge_ids(ids)` → number of ids that were present. -/
 def purgeIds (s : Index) (ids : List Nat) : Index × Nat :=
@@ -143,7 +153,7 @@ def purgeIds (s : Index) (ids : List Nat) : Index × Nat :=
   else
     let gone := s.docTokens.filter (fun p => ids.contains p.1)
     ({ docTokens := s.docTokens.filter (fun p => !ids.contains p.1)
-       postings := s.postings.filterMap (purgePosting ids)
+       postings := sweep s.postings ids
        totalTokens := s.totalTokens - sumSnd gone }, gone.length)
 
 /-! ### queries -/
@@ -269,13 +279,25 @@ def totalKey (b : BitVec 32) : Int := (b ^^^ ((b.sshiftRight 31) >>> 1)).toInt
 
 abbrev Scored := Nat × BitVec 32      -- (document id, f32 bits of the score)
 
-/-- `compare_scored_docs` -/
+/-- one right-hand side of `compare_scored_docs` -/
+def runArm (arm : Arm) (a b : Scored) : Ordering :=
+  match arm with
+  | .ids => compare a.1 b.1
+  | .idsDesc => compare b.1 a.1
+  | .greater => .gt
+  | .less => .lt
+  | .scoreDescThenIds => (compare (totalKey b.2) (totalKey a.2)).then (compare a.1 b.1)
+  | .scoreAscThenIds => (compare (totalKey a.2) (totalKey b.2)).then (compare a.1 b.1)
+
+def lookupArm : List ((Bool × Bool) × Arm) → Bool × Bool → Option Arm
+  | [], _ => none
+  | (k, arm) :: r, x => if k = x then some arm else lookupArm r x
+
+/-- `compare_scored_docs`: the arm table is regenerated from the source (`Gen/Bm25Order.cmpArms`) -/
 def cmpScored (a b : Scored) : Ordering :=
-  match isNaN a.2, isNaN b.2 with
-  | true, true => compare a.1 b.1
-  | true, false => .gt
-  | false, true => .lt
-  | false, false => (compare (totalKey b.2) (totalKey a.2)).then (compare a.1 b.1)
+  match lookupArm Gen.Bm25Order.cmpArms (isNaN a.2, isNaN b.2) with
+  | some arm => runArm arm a b
+  | none => .eq
 
 def ltScored (a b : Scored) : Bool := cmpScored a b == .lt
 
@@ -287,17 +309,54 @@ def sortScored : List Scored → List Scored
   | [] => []
   | x :: xs => insertSorted x (sortScored xs)
 
-/-- `top_k_results`: the `k` least elements under `compare_scored_docs`, in that order. -/
+/-- one step of `top_k_results`. `select_nth_unstable_by(k - 1, cmp)` only promises that the `k`
+least elements come first, in no particular order; the model takes the sorted arrangement (one of the
+arrangements the contract allows — `Props/C11.topk_unique` shows the final result does not depend on
+which). -/
+def runTopKStep (k : Nat) (l : List Scored) : TopKStep → List Scored
+  | .selectNth => if l.length > k then sortScored l else l
+  | .truncate => l.take k
+  | .sort => sortScored l
+
+def runTopK (k : Nat) : List TopKStep → List Scored → List Scored
+  | [], l => l
+  | st :: r, l => runTopK k r (runTopKStep k l st)
+
+/-- `top_k_results`; the step list is regenerated from the source (`Gen/Bm25Order.topKShape`) -/
 def topK (scored : List Scored) (k : Nat) : List Scored :=
-  if k = 0 then [] else (sortScored scored).take k
+  if k = 0 then [] else runTopK k Gen.Bm25Order.topKShape scored
 
 /-- `MAX_NOT_COMPLEMENT_DOCS` -/
-def maxNotComplementDocs : Nat := 10000
+def maxNotComplementDocs : Nat := Gen.Bm25Order.maxNotComplementDocs
 
 /-- key set of `try_search_advanced(query)` for `top_k > 0` (after parsing) -/
 def searchAdvanced (s : Index) (q : Query) : Except Err (List Nat) :=
   if mayMat q false && decide (s.len > maxNotComplementDocs) then .error .notLimit
   else .ok (eval s q)
+
+/-! ### the set-algebra reading of a query (the specification `eval` is compared with) -/
+
+/-- the posting of token `t` mentions document `i` -/
+def hasEntry (s : Index) (t i : Nat) : Bool :=
+  match get? s.postings t with
+  | some es => es.any (fun e => e.1 == i)
+  | none => false
+
+mutual
+/-- `Term`: live documents listed under one of the term's tokens; `And []`/`Or []`: nothing;
+`Not`: the live documents outside. -/
+def denote (s : Index) : Query → Nat → Bool
+  | .term toks, i => s.live i && toks.any (fun t => hasEntry s t i)
+  | .and qs, i => !qs.isEmpty && denoteAll s qs i
+  | .or qs, i => denoteAny s qs i
+  | .not q, i => s.live i && !denote s q i
+def denoteAll (s : Index) : List Query → Nat → Bool
+  | [], _ => true
+  | q :: qs, i => denote s q i && denoteAll s qs i
+def denoteAny (s : Index) : List Query → Nat → Bool
+  | [], _ => false
+  | q :: qs, i => denote s q i || denoteAny s qs i
+end
 
 /-! ### histories -/
 
